@@ -63,6 +63,30 @@ static void emitFenSer(std::ostream& os, const Position& pos) {
     Position rr = TextIO::readFEN(fen);
     os << "{\"e\":\"Fen\",\"text\":\"" << fen << "\",\"re\":" << briefJ(rr) << ",\"orig\":" << briefJ(pos)
        << ",\"eq\":" << (rr == pos ? "true" : "false") << "}\n";
+    // the same position described with and without an en-passant field (a pawn that may just have made a double step): the two
+    // texts are read separately; when no en-passant capture is legal they describe rule-equal positions and must read equal
+    {
+        const bool wtm = pos.isWhiteMove();
+        std::vector<int> cand;
+        for (int x = 0; x < 8; x++) {
+            int y4 = wtm ? 4 : 3, y3 = wtm ? 5 : 2, y2 = wtm ? 6 : 1;
+            if (pos.getPiece(Square(x, y4)) == (wtm ? Piece::BPAWN : Piece::WPAWN) && pos.getPiece(Square(x, y3)) == Piece::EMPTY &&
+                pos.getPiece(Square(x, y2)) == Piece::EMPTY)
+                cand.push_back(y3 * 8 + x);
+        }
+        if (!cand.empty()) {
+            static U64 pick = 0;
+            Position a(pos), b(pos);
+            a.setEpSquare(Square(cand[(pick++) % cand.size()]));
+            b.setEpSquare(Square(-1));
+            std::string ta = TextIO::toFEN(a), tb = TextIO::toFEN(b);
+            try {
+                Position ra = TextIO::readFEN(ta), rb = TextIO::readFEN(tb);
+                os << "{\"e\":\"FenEp\",\"text\":\"" << ta << "\",\"a\":" << briefJ(ra) << ",\"b\":" << briefJ(rb)
+                   << ",\"eq\":" << (ra == rb ? "true" : "false") << "}\n";
+            } catch (const ChessParseError&) {}
+        }
+    }
     Position::SerializeData sd;
     pos.serialize(sd);
     Position de;
